@@ -1,5 +1,5 @@
 CONSTANTS P = 79  A = 0  B = 3  Gx = 1  Gy = 2  N = 97
-          ZSet = {1, 97}  ZDeep = {}
+          ZSet = {97}  ZDeep = {}
 SPECIFICATION Spec
 INVARIANT ECDSALemmas
 CHECK_DEADLOCK FALSE
